@@ -24,6 +24,24 @@ add={
 'C37':"**Wave 3:** shorthand assignment (`+= -= *= &= |=`) in `c37_stmt_exact`.",
 'C40':"**Wave 3:** `c40_arg_locations_all` (no hypothesis), `c40_stack_args_in_order`, `c40_struct_memory_args`, `c40_call_alignment_blobs`; fixes e9a47c8/7f46b6f (stack-passed float/double and 8/16-bit arguments raised NotImplementedError); by-value structs ≤ 16 bytes go on the stack instead of registers and blob sizes are not rounded to eightbytes (`c40_struct_small_refuted`, `c40_struct_memory_size_refuted`, `c40_call_alignment_blobs_refuted`: 3 known findings).",
 }
+
+add2={
+'C01':"Round-3 follow-up: switches on narrow controlling expressions with labels outside the narrow type (labels convert to the PROMOTED type) in both generators.",
+'C02':"Round-3 follow-up: 84 deterministic triangle/diamond/chain modules with 1–3 phis of mixed agreement through every pass and the pipeline (`c02_cfgfam.py`).",
+'C03':"Round-3 follow-up: 12 constant-cjump shapes (plain block, loop header with back edge, shared block, nested header) through every pass; the pass list is completed by scanning `ppci.opt` for pass subclasses.",
+'C06':"Round-3: a thorough-tier alarm on avr frames was a false alarm of `check_spill` (avr spill code writes the physical scratch pair Z); the validator now lets inserted code write physical registers, treats them and their aliases as unknown until rewritten, and `c06_check_spill_sound` is re-proved for the weaker relation.",
+'C08':"Round-3 follow-up: ppci's `[base, index, disp]` operand syntax is normalised for llvm-mc (x86_64 compared lines 15k → 74k), width-boundary immediates/displacements in the deterministic pool of all 8 ISAs, C04's addressing-mode stage also runs here.",
+'C10':"Round-3 follow-up: call-site stage (`c10_sites.py`): AST inventory of every `wrap_negative`/`inrange` call in `ppci/arch` and a dynamic probe of all 28 pc-relative relocation classes at the lax part of the envelope — accepted-and-aliased values are violations unless listed per site (25 site-keyed known findings; AVR is strict and therefore a regression witness).",
+'C11':"Round-3 follow-up: model-free boundary stage for EVERY relocation class of EVERY architecture (`c11_bounds.py`: width, scale and bias calibrated from the class's own `apply`; accepted ⇒ distinct displacements must patch distinct bytes): 38 of 46 classes calibrate, 8 hi/lo slice classes excluded by name, 65 aliased boundaries of 20 lax classes are known findings keyed (class, boundary); strict classes (AVR, msp430, mips, several thumb) are regression witnesses.",
+'C26':"Round-3 follow-up: conditional-inclusion differential against gcc (36-case corpus outer kind × inner kind × taken/skipped, + nested generated programs).",
+'C27':"Round-3 follow-up: the enum branch of `eval_binop` is now translated (`Gen.ceval.binop_enum_table`) and `c27_enum_branch_same_operators` proves it uses the same operators as the integer branch (a source edit there breaks the proof build); enum-typed operand differential in all constant contexts.",
+'C28':"Round-3 follow-up: boundary literals compiled through the back-ends (`c-boundary-cc`, 1440 programs) and C3 boundary constants (4000) are part of the deterministic regression set; regression witnesses are no longer minimised.",
+'C30':"Round-3 follow-up: process-history dimension (same-process rebuild in reverse order, build after unrelated modules, fresh process; 6 targets + wasm/python/IR text) and an inventory of class-level/module-level mutable state written during compilation (`c30_state_scan.py`, 4 reviewed `lru_cache` sites; a new site fails the check).",
+'C36':"Round-3 follow-up: tuple assignment (`PSTuple`: all values in the old store, then stores left to right) in the semantics, the lowering model, `c36_stmt_exact` and the generator.",
+}
+for k,v in add2.items():
+    add[k]=(add.get(k,'**Wave 3:**')+' '+v) if k in add else '**Wave 3:** '+v
+
 lines=s.split('\n')
 a=next(i for i,l in enumerate(lines) if l.startswith('### 10.2'))
 b=next(i for i,l in enumerate(lines) if l.startswith('### 10.3'))
